@@ -56,11 +56,24 @@ def count_obligations(info, extract_items):
     return per_fn
 
 
+def merge_args(extra, specargs):
+    out, skip = [], False
+    for k, a in enumerate(specargs):
+        if skip:
+            skip = False
+            continue
+        if a == "--rlimit" and "--rlimit" in extra:
+            skip = True
+            continue
+        out.append(a)
+    return out
+
+
 def run_unit(specname, workdir, probe_fn=None, extra_args=()):
     spec = U.parse_spec(os.path.join(VERIF, "specs", specname + ".vx"))
     out = os.path.join(workdir, specname + ("" if probe_fn is None else "_p%s" % hashlib.md5(probe_fn.encode()).hexdigest()[:8]) + ".rs")
     res = U.build_unit(spec, out, probe_fn=probe_fn)
-    r = V.run_verus(out, res["linemap"], res["info"], extra_args=list(extra_args) + list(spec.verus_args))
+    r = V.run_verus(out, res["linemap"], res["info"], extra_args=list(extra_args) + merge_args(extra_args, spec.verus_args))
     return spec, res, r
 
 
@@ -164,11 +177,14 @@ def main():
                 probe_fns = [f["fn"] for f in info["functions"] if f["contract"] and pid in f["props"] and f["fn"] not in info["stubs"]]
             def do_probe(fn):
                 try:
-                    _, res2, r2 = run_unit(specname, work, probe_fn=fn)
+                    mod, _, rest = fn.partition("::")
+                    xa = ["--verify-only-module", mod, "--verify-function", rest] if "<" not in rest else []
+                    # a contradictory contract proves `false` at once; a small resource limit keeps honest probes cheap
+                    _, res2, r2 = run_unit(specname, work, probe_fn=fn, extra_args=xa + ["--rlimit", "4"])
                 except U.Undecided as e:
                     return fn, None, str(e)
-                hit = any(f2["fn"] == fn or (f2["clause"] or "").find("VX_PROBE") >= 0 or "false" in (f2["expr"] or "") for f2 in r2.failures)
-                return fn, (len(r2.failures) > 0 and hit), "; ".join(r2.compile_errors[:2] + r2.undecided[:2])
+                not_proved = r2.errors >= 1 or len(r2.failures) > 0
+                return fn, not_proved, "; ".join(r2.compile_errors[:2])
             if probe_fns:
                 with ThreadPoolExecutor(max_workers=8) as ex:
                     for fn, ok, msg in ex.map(do_probe, probe_fns):
